@@ -1397,7 +1397,14 @@ class PackRepository(MetaDirVersionedFileRepository):
 
     def _abort_write_group(self):
         self.revisions._index.clear_key_dependencies()
-        self._pack_collection._abort_write_group()
+        try:
+            self._pack_collection._abort_write_group()
+        finally:
+            # The write group may have been consulted through the graph
+            # while it was open: forget what the parents provider cached,
+            # as _commit_write_group does.
+            self._unstacked_provider.disable_cache()
+            self._unstacked_provider.enable_cache()
 
     def _make_parents_provider(self):
         if not self._format.supports_external_lookups:
